@@ -17,11 +17,14 @@ import (
 	"io"
 	"log"
 	"math/rand"
+	"net/http"
+	"net/url"
 	"os"
 	"path/filepath"
 	"runtime/debug"
 	"sort"
 	"sync"
+	"syscall"
 	"time"
 
 	"github.com/ErdemOzgen/blackdagger/internal/agent"
@@ -42,21 +45,48 @@ type world struct {
 	attempts map[int]int
 	started  map[int]int
 	lastOK   map[int]int // 1 ok, 2 fail (last finished attempt)
+	sigs     map[int][]int
 }
 
 var W *world
+var autoMode bool
+var autoCase *acase
+
+func autoOK(idx, att int) bool {
+	if idx >= 1000 {
+		return autoCase.Handlers[idx-1000] != 2
+	}
+	f := autoCase.Nodes[idx].Fails
+	return !(f < 0 || att < f)
+}
 
 type scriptExec struct {
 	idx, att int
 	release  chan bool
+	obeys    bool
+	dead     bool
 }
 
 func (e *scriptExec) SetStdout(io.Writer) {}
 func (e *scriptExec) SetStderr(io.Writer) {}
-func (e *scriptExec) Kill(os.Signal) error {
-	select {
-	case e.release <- false:
-	default:
+func (e *scriptExec) Kill(sig os.Signal) error {
+	s := 0
+	if ss, ok := sig.(syscall.Signal); ok {
+		s = int(ss)
+	}
+	w := W
+	w.mu.Lock()
+	w.sigs[e.idx] = append(w.sigs[e.idx], s)
+	fire := !e.dead && (e.obeys || s == 9)
+	if fire {
+		e.dead = true
+	}
+	w.mu.Unlock()
+	if fire {
+		select {
+		case e.release <- false:
+		default:
+		}
 	}
 	return nil
 }
@@ -67,7 +97,12 @@ func (e *scriptExec) Run() error {
 	w.inflight[e.idx] = e
 	w.started[e.idx]++
 	w.mu.Unlock()
-	ok := <-e.release
+	var ok bool
+	if autoMode {
+		ok = autoOK(e.idx, e.att) // free-running stream: nobody releases, the scripted outcome is immediate
+	} else {
+		ok = <-e.release
+	}
 	w.mu.Lock()
 	delete(w.inflight, e.idx)
 	w.nEvents++
@@ -91,7 +126,11 @@ func init() {
 		att := w.attempts[idx]
 		w.attempts[idx] = att + 1
 		w.mu.Unlock()
-		return &scriptExec{idx: idx, att: att, release: make(chan bool, 2)}, nil
+		obeys := true
+		if v, ok := step.ExecutorConfig.Config["obeys"].(bool); ok {
+			obeys = v
+		}
+		return &scriptExec{idx: idx, att: att, release: make(chan bool, 2), obeys: obeys}, nil
 	})
 }
 
@@ -102,6 +141,8 @@ type nodeCase struct {
 	Limit    int   `json:"limit"`
 	Pre      int   `json:"pre"`
 	Fails    int   `json:"fails"`
+	Obeys    *bool  `json:"obeys,omitempty"`
+	Sig      string `json:"sig,omitempty"` // signalOnStop
 }
 
 type acase struct {
@@ -111,7 +152,28 @@ type acase struct {
 	Handlers  [4]int     `json:"handlers"`
 	Seed      int64      `json:"seed"`
 	Ops       []string   `json:"ops,omitempty"`
+	// stop stream (C05): after that many releases a stop is requested through the agent's own entry
+	// points (API: HandleHTTP POST /stop = signal(SIGTERM, allowOverride); OS: Signal(SIGTERM))
+	StopAfter int    `json:"stopAfter"`
+	StopVia   string `json:"stopVia,omitempty"` // "api" | "os"
+	CleanupMs int    `json:"cleanupMs,omitempty"`
+	Auto      bool   `json:"auto,omitempty"` // free-running: executors return at once (stress of the final record)
 }
+
+type stopReport struct {
+	InFlight []int            `json:"inflight"`
+	Sigs     map[string][]int `json:"sigs"`
+	EndedMs  int64            `json:"endedMs"` // -1: did not end within the wait
+	Overall  string           `json:"overall"`
+	St       []string         `json:"st"`
+	Handlers map[string]int   `json:"handlers"` // handler idx -> starts
+}
+
+type respW struct{ code int }
+
+func (r *respW) Header() http.Header       { return http.Header{} }
+func (r *respW) Write(b []byte) (int, error) { return len(b), nil }
+func (r *respW) WriteHeader(c int)          { r.code = c }
 
 type view struct {
 	Overall string   `json:"ov"`
@@ -138,6 +200,7 @@ type result struct {
 	RunErr   bool     `json:"runErr"`
 	Hang     bool     `json:"hang"`
 	Panic    string   `json:"panic,omitempty"`
+	Stop     *stopReport `json:"stop,omitempty"`
 }
 
 func toView(st *model.Status, err error, n int) view {
@@ -174,8 +237,9 @@ func runCase(c acase) (res result) {
 			res.Panic = fmt.Sprint(r) + " @ " + string(debug.Stack())
 		}
 	}()
-	W = &world{inflight: map[int]*scriptExec{}, attempts: map[int]int{}, started: map[int]int{}, lastOK: map[int]int{}}
+	W = &world{inflight: map[int]*scriptExec{}, attempts: map[int]int{}, started: map[int]int{}, lastOK: map[int]int{}, sigs: map[int][]int{}}
 	rng := rand.New(rand.NewSource(c.Seed))
+	autoMode, autoCase = c.Auto, &c
 	root, _ := os.MkdirTemp("", "verif-agent-")
 	defer os.RemoveAll(root)
 	dagsDir, dataDir := filepath.Join(root, "dags"), filepath.Join(root, "data")
@@ -184,13 +248,13 @@ func runCase(c acase) (res result) {
 	ds := dsclient.NewDataStores(dagsDir, dataDir, filepath.Join(root, "suspend"), dsclient.DataStoreOptions{})
 	cli := client.New(ds, "/bin/true", root, lg)
 	d := &dag.DAG{Name: "v" + c.ID, Location: filepath.Join(dagsDir, "v"+c.ID+".yaml"), MaxActiveRuns: c.MaxActive,
-		LogDir: filepath.Join(root, "log"), HistRetentionDays: 30, MaxCleanUpTime: 2 * time.Second,
+		LogDir: filepath.Join(root, "log"), HistRetentionDays: 30, MaxCleanUpTime: time.Duration(max(c.CleanupMs, 2000)) * time.Millisecond,
 		SMTP: &dag.SMTPConfig{}, MailOn: &dag.MailOn{}, ErrorMail: &dag.MailConfig{}, InfoMail: &dag.MailConfig{}}
 	os.WriteFile(d.Location, []byte("steps: []\n"), 0o644)
 	for i, nc := range c.Nodes {
 		s := dag.Step{Name: fmt.Sprintf("s%d", i),
-			ExecutorConfig: dag.ExecutorConfig{Type: "verifscript", Config: map[string]any{"idx": float64(i)}},
-			ContinueOn:     dag.ContinueOn{Failure: nc.ContFail, Skipped: nc.ContSkip}}
+			ExecutorConfig: dag.ExecutorConfig{Type: "verifscript", Config: map[string]any{"idx": float64(i), "obeys": nc.Obeys == nil || *nc.Obeys}},
+			ContinueOn:     dag.ContinueOn{Failure: nc.ContFail, Skipped: nc.ContSkip}, SignalOnStop: nc.Sig}
 		for _, dd := range nc.Deps {
 			s.Depends = append(s.Depends, fmt.Sprintf("s%d", dd))
 		}
@@ -281,16 +345,31 @@ func runCase(c acase) (res result) {
 	}
 	opIdx := 0
 	for {
+		if c.Auto {
+			select {
+			case <-finished:
+			case <-time.After(20 * time.Second):
+				res.Hang = true
+			}
+			break
+		}
 		if quiesce() {
 			break
 		}
 		p := observe()
 		if len(p.Flight) == 0 {
-			// nothing in flight and not finished: handlers between two steps or a genuine hang
-			if quiesce() {
+			// nothing in flight and not finished: between two steps / handlers (the scheduler polls every
+			// 100 ms and the machine may be busy), or a genuine hang: wait up to ~6 s before calling it one
+			fin := false
+			for k := 0; k < 20 && len(p.Flight) == 0 && !fin; k++ {
+				fin = quiesce()
+				if !fin {
+					p = observe()
+				}
+			}
+			if fin {
 				break
 			}
-			p = observe()
 			if len(p.Flight) == 0 {
 				res.Hang = true
 				res.Points = append(res.Points, p)
@@ -298,6 +377,59 @@ func runCase(c acase) (res result) {
 			}
 		}
 		res.Points = append(res.Points, p)
+		if c.StopVia != "" && len(res.Ops) >= c.StopAfter {
+			// stop now, through the agent's own entry point, and watch the escalation
+			rep := &stopReport{InFlight: p.Flight, Sigs: map[string][]int{}, Handlers: map[string]int{}, EndedMs: -1}
+			t0 := time.Now()
+			res.Ops = append(res.Ops, "stop")
+			if c.StopVia == "api" {
+				go ag.HandleHTTP(&respW{}, &http.Request{Method: "POST", URL: &url.URL{Path: "/stop"}})
+			} else {
+				go ag.Signal(syscall.SIGTERM)
+			}
+			wait := time.Duration(max(c.CleanupMs, 2000))*time.Millisecond + 4*time.Second
+			deadline := time.Now().Add(wait)
+			ended := false
+			for time.Now().Before(deadline) && !ended {
+				select {
+				case <-finished:
+					ended = true
+				default:
+					// handlers started after the stop are scripted executors too: let them succeed
+					W.mu.Lock()
+					for i, e := range W.inflight {
+						if i >= 1000 {
+							select {
+							case e.release <- true:
+							default:
+							}
+						}
+					}
+					W.mu.Unlock()
+					time.Sleep(10 * time.Millisecond)
+				}
+			}
+			if ended {
+				rep.EndedMs = time.Since(t0).Milliseconds()
+			}
+			W.mu.Lock()
+			for i, v := range W.sigs {
+				rep.Sigs[fmt.Sprint(i)] = append([]int{}, v...)
+			}
+			for i, v := range W.started {
+				if i >= 1000 {
+					rep.Handlers[fmt.Sprint(i-1000)] = v
+				}
+			}
+			W.mu.Unlock()
+			if !ended {
+				res.Hang = true
+			}
+			fp := observe()
+			rep.Overall, rep.St = fp.Dead.Overall, fp.Dead.St
+			res.Stop = rep
+			break
+		}
 		var i int
 		var ok bool
 		if c.Ops != nil {
